@@ -130,7 +130,7 @@ func TestEnumerateFaultPoints(t *testing.T) {
 		{true, "debug", "debugger", rec.Scale(10, 1), true},
 		{false, "debug", "hook", rec.Scale(8, 1), true},
 	}
-	full := map[string]bool{"defers": true, "recover": true, "selective-recover": true, "panic-in-defer": true}
+	full := map[string]bool{"plain-defer-specialisations": true, "plain-defer-toplevel-call": true, "defers": true, "recover": true, "selective-recover": true, "panic-in-defer": true}
 	idx, mine := 0, 0
 	complete := true
 	for ci, cf := range configs {
